@@ -15,6 +15,10 @@ Programs:
   tableD   every sequence of every bundled Table D of versions >= 19 (de-duplicated by expansion + the element
            definitions reached), delayed factors as deviation choices (default 1);
   corpus   the real bytes of every sample message, decode and re-encode.
+  freeform every item list (weight <= 4 quick / 5-6 thorough, nesting <= 2 / 3) over markers, elements, operator brackets
+           201/202/207/208/204 (nested)/203 and fixed / 1-bit / 8-bit delayed loops after a bitmap over a numeric and a
+           character element (mc.gen.freeform) x fixed data patterns: outside the reference model's envelope, judged
+           purely differentially (the non-compiled reading of the pattern is the base line);
 Histories (E1, unmerged): a pool of 4 programs -- two with the SAME descriptor list under table versions whose
 element definitions differ -- decoded in every order of length <= 4 (thorough 5) by one decoder with compiled
 cache size 0, 1, 2, 8; every decode must equal the fresh non-compiled decode.
@@ -354,7 +358,35 @@ def run_histories(args):
     return p
 
 
+def run_freeform(args):
+    """free-form programs (mc.gen.freeform) x data patterns x (1 subset, 2 subsets, 2 subsets compressed): the non-compiled
+    decoder's reading of the pattern is the base line; compiled, reloaded and both encoders must agree with it"""
+    from mc.gen import freeform as F
+    progs, patterns = args
+    p = Partial()
+    for name, descs in progs:
+        p.n['nodes'] += 1
+        for pat in patterns:
+            for nsub, comp in ((1, False), (2, False), (2, True)):
+                b = F.build(descs, pat, nsub, comp)
+                p.n['exec'] += 1
+                p.n['edges'] += 1
+                base = observe(dec('nc'), b)
+                p.hist['base:' + (base[0] if base[0] == 'ok' else base[1])] += 1
+                if base[0] == 'ok':
+                    p.outcome((name.split('|')[0], nsub, comp, min(3, len(base[1][0][2])), min(40, len(base[1][0][1])) // 8))
+                r = compare_paths(b)
+                if r:
+                    p.violation('%s|freeform|%s' % (r[0], name.split('|')[0]),
+                                {'name': name, 'descs': descs, 'pattern': pat, 'nsub': nsub, 'compressed': comp}, r[1], observed=b)
+    return p
+
+
 def replay(part, case):
+    if part.startswith('freeform'):
+        from mc.gen import freeform as F
+        r = compare_paths(F.build(case['descs'], case['pattern'], case['nsub'], case['compressed']))
+        return [{'sig': '%s|freeform|%s' % (r[0], case['name'].split('|')[0]), 'detail': r[1]}] if r else []
     if part == 'corpus':
         from mc.gen.corpus import TESTS, scan
         m = scan(open(os.path.join(TESTS, case['file']), 'rb').read())[case['index']]
@@ -413,6 +445,27 @@ def main(tier, seed):
                                ('bitmap-under-operator-c2', under_operator_structs(2), dict(nsub=2, compressed=True, vmap=[0, 0]))):
         p = merge_all(run_shards(run_structs, [(s, env) for s in split(structs, 64)]))
         rep.add_part(name, p, bounds=dict(structures=len(structs), **env))
+    from mc.gen import freeform as F
+    if tier == 'quick':
+        ff = [('freeform-markers', F.marker_programs(4, 2, extra_leaves=()) + F.marker_programs(3, 2), [0, 2, 3, 5]),
+              ('freeform-markers-after-delayed', F.marker_programs(3, 2, extra_leaves=(), base='B'), [0, 1, 3, 4]),
+              ('freeform-operators', F.operator_programs(3, 2) + F.focused_programs(4, 2), [0, 2, 3, 5])]
+    else:
+        ff = [('freeform-markers', F.marker_programs(5, 3, extra_leaves=()) + F.marker_programs(4, 3), list(range(len(F.PATTERNS)))),
+              ('freeform-markers-w6', F.marker_programs(6, 3, headers=F.HEADERS[1:3], extra_leaves=()), [0, 2, 3, 5]),
+              ('freeform-markers-after-delayed', F.marker_programs(4, 3, base='B'), list(range(len(F.PATTERNS)))),
+              ('freeform-operators', F.operator_programs(4, 2) + F.focused_programs(6, 3), list(range(len(F.PATTERNS))))]
+    for name, progs, pats in ff:
+        seen, uniq = set(), []
+        for nm, d in progs:
+            if tuple(d) not in seen:
+                seen.add(tuple(d))
+                uniq.append((nm, d))
+        p = merge_all(run_shards(run_freeform, [(s_, pats) for s_ in split(uniq, 128)]))
+        p.sample({'program': uniq[len(uniq) // 2][0], 'descs': uniq[len(uniq) // 2][1]})
+        rep.add_part(name, p, bounds={'programs': len(uniq), 'patterns': [F.PATTERNS[i][0] for i in pats],
+                                      'envelopes': ['1 subset', '2 subsets', '2 subsets compressed'],
+                                      'grammar': 'mc.gen.freeform (operators opened and closed within one replication scope)'})
     progs = tabled_programs(tier, seed)
     bound = 1 if tier == 'quick' else 2
     p = merge_all(run_shards(run_tabled, [(s, bound) for s in split(progs, 128)]))
